@@ -8,7 +8,19 @@
  *   defined code    => same symbol, exactly its code length consumed
  *   undefined code  => reported as invalid (symbol >= DIST_LEN) with no bits consumed, whatever the
  *                      structure contained before. */
+/* -DH_MKHDR (lead): the same unit check for the code-length code of a dynamic header (19 symbols, lengths <= 7):
+ * make_inflate_huff_code_header + decode_next_header -- the pair that harness C02/h_dynlens.c cuts out. */
 #include "harness/inflate_common/inflate_common.h"
+
+#ifdef H_MKHDR
+#define NSYMS CODE_LEN_CODES
+#define BUILD(code, table, count) make_inflate_huff_code_header(code, table, NSYMS, count, NSYMS)
+#define DECODE(st, code) decode_next_header(st, code)
+#else
+#define NSYMS DIST_LEN
+#define BUILD(code, table, count) make_inflate_huff_code_dist(code, table, NSYMS, count, NSYMS)
+#define DECODE(st, code) decode_next_dist(st, code)
+#endif
 
 #ifndef LENS
 #define LENS 2, 2, 2
@@ -29,17 +41,17 @@ void
 harness(void)
 {
         VERIF_INPUTS();
-        struct huff_code table[DIST_LEN + 2];
+        struct huff_code table[NSYMS + 2];
         uint16_t count[16];
-        uint8_t l8[DIST_LEN];
+        uint8_t l8[NSYMS];
         struct rfc_huff h;
         for (int i = 0; i < 16; i++)
                 count[i] = 0;
-        for (int i = 0; i < DIST_LEN + 2; i++) {
+        for (int i = 0; i < NSYMS + 2; i++) {
                 uint8_t l = i < NL ? lens[i] : 0;
                 table[i].code_and_length = 0;
                 table[i].length = l;
-                if (i < DIST_LEN) {
+                if (i < NSYMS) {
                         l8[i] = l;
                         count[l]++;
                 }
@@ -50,17 +62,17 @@ harness(void)
         for (int i = 0; i < ISAL_HUFF_CODE_SMALL_LONG_ALIGNED; i++)
                 st.dist_huff_code.long_code_lookup[i] = I.stale_long[i];
 
-        int sc = set_codes(table, DIST_LEN, count);
-        int left = rfc_construct(&h, l8, DIST_LEN);
+        int sc = set_codes(table, NSYMS, count);
+        int left = rfc_construct(&h, l8, NSYMS);
         VASSERT((sc != 0) == (left < 0), "set_codes rejects exactly the over-subscribed vectors (sweep sanity)");
         if (sc == 0) {
-                make_inflate_huff_code_dist(&st.dist_huff_code, table, DIST_LEN, count, DIST_LEN);
+                BUILD(&st.dist_huff_code, table, count);
 
                 VASSUME(I.bits < (1 << 15));
                 st.read_in = I.bits;
                 st.read_in_length = 32;
                 st.avail_in = 0;
-                uint16_t sym = decode_next_dist(&st, &st.dist_huff_code);
+                uint16_t sym = DECODE(&st, &st.dist_huff_code);
                 int consumed = 32 - st.read_in_length;
 
                 uint8_t buf[4] = { (uint8_t) I.bits, (uint8_t) (I.bits >> 8), 0, 0 };
@@ -70,7 +82,7 @@ harness(void)
                 if (want >= 0) {
                         VASSERT(sym == want && consumed == (int) r.pos, "defined code: same symbol, exactly its length consumed");
                 } else {
-                        VASSERT(sym >= DIST_LEN, "undefined code is reported as an invalid symbol, whatever the table held before");
+                        VASSERT(sym >= NSYMS, "undefined code is reported as an invalid symbol, whatever the table held before");
                         VASSERT(consumed == 0, "undefined code consumes no bits (bit-buffer accounting independent of stale contents)");
                 }
         }
